@@ -728,7 +728,11 @@ impl Core {
             t.go = true;
             t.block = None;
             t.gated_points += 1;
-            if pending && t.in_query {
+            // Only cancellation checks count: a reader released from `salsa:check` while a change
+            // is pending reads the flag next and must unwind. Validating memoised values
+            // (`salsa:valid`, no check in between) is bounded by the depth of the dependency
+            // chain, not by a constant, and is not "ignoring the change".
+            if pending && t.in_query && matches!(&t.point, Some(p) if p.kind == PKind::Check) {
                 t.steps_while_pending += 1;
                 let s = t.steps_while_pending;
                 if s > st.probes.max_steps_to_cancel {
